@@ -64,6 +64,10 @@ type mp4Spec struct {
 	Config  []byte   // avcC / hvcC payload
 	NoCfg   bool     // sample entry without configuration box
 	Samples [][]byte // length-prefixed samples
+	// round 5: one hostile sample-table / fragment-table field around the frame (mp4tbl.go); nil: the tables are what was written
+	Tbl        *tblClass
+	TblVariant int
+	tblWhat    string // set by build: the change in words
 }
 
 func (s *mp4Spec) codec() string {
@@ -321,6 +325,16 @@ func replaceBox(file []byte, nodes []*boxwalk.Node, n *boxwalk.Node, repl []byte
 // build writes the file. ok=false: the frame is not available (a test file of
 // the repo is missing or has another shape): the caller falls back to a built frame.
 func (s *mp4Spec) build() (file []byte, ok bool) {
+	file, ok = s.buildValid()
+	if !ok || s.Tbl == nil {
+		return file, ok
+	}
+	file, s.tblWhat, ok = applyTbl(file, s.Tbl, s.TblVariant)
+	return file, ok
+}
+
+// buildValid writes the file with consistent tables.
+func (s *mp4Spec) buildValid() (file []byte, ok bool) {
 	ftyp := mkBox("ftyp", []byte("isom"), be32(512), []byte("isom"), []byte("iso2"), []byte("avc1"), []byte("mp41"))
 	var data []byte
 	for _, smp := range s.Samples {
@@ -1094,19 +1108,31 @@ func mp4SysCount() int {
 	return 2 * len(mp4Frames) * (len(cfgClasses) + 2*len(smpClasses))
 }
 
-func mp4ToolCount(thorough bool) int {
+// plan of the mp4-tool generator: [systematic record/sample classes][systematic table classes][random]
+func mp4RandCount(thorough bool) int {
 	if thorough {
-		return mp4SysCount() + 12000
+		return 16000
 	}
-	return mp4SysCount() + 900
+	return 1200
+}
+
+func mp4ToolCount(thorough bool) int {
+	return mp4SysCount() + len(tblSys) + mp4RandCount(thorough)
 }
 
 type mp4Case struct {
 	spec      *mp4Spec
 	cfgClass  string
 	smpClass  string
+	tblClass  string // "none" or the table class
 	desc      string
 	usedFrame string
+}
+
+// tblSamples: valid samples for the table cases: parameter sets + SEI + slice, then two more slices
+// (three samples, so that first / second / last are different samples).
+func tblSamples(r *runner.Rand, codec string, g psGroup) [][]byte {
+	return [][]byte{annexb.BuildSample(validUnits(r, codec, g, true)), secondSample(r, codec, g), secondSample(r, codec, g)}
 }
 
 // genMP4 lays out case sub of the mp4-tool plan.
@@ -1116,7 +1142,25 @@ func genMP4(r *runner.Rand, sub int) *mp4Case {
 	var sc *smpClass
 	per := len(cfgClasses) + 2*len(smpClasses)
 	psless := false
-	if sub < mp4SysCount() {
+	var tc *tblClass
+	tv := 0
+	if sub >= mp4SysCount() && sub < mp4SysCount()+len(tblSys) {
+		// systematic table part: class x variant x frame x codec; the record carries no parameter sets (or is absent), so that
+		// mp4ff-pslister too goes to the samples; mp4ff-nallister finds the SPS in the first sample
+		ts := tblSys[sub-mp4SysCount()]
+		codec, frame, tc, tv = ts.codec, ts.frame, ts.class, ts.variant
+		cc, sc = &cfgClasses[3], &smpClasses[0]
+		if r.Bool() {
+			cc = &cfgClasses[1]
+		}
+	} else if sub >= mp4SysCount() && r.Chance(1, 4) {
+		// random table part: any class, any variant, a valid record in half of the cases
+		tc = &tblClasses[r.Intn(len(tblClasses))]
+		tv = r.Intn(tc.nvar * 3)
+		fr := tblFrames(tc.kind)
+		codec, frame = r.PickStr("avc", "hevc"), fr[r.Intn(len(fr))]
+		cc, sc = &cfgClasses[r.PickInt(0, 0, 1, 3)], &smpClasses[0]
+	} else if sub < mp4SysCount() {
 		codec = []string{"avc", "hevc"}[sub%2]
 		frame = mp4Frames[(sub/2)%len(mp4Frames)]
 		k := (sub / 2 / len(mp4Frames)) % per
@@ -1159,12 +1203,23 @@ func genMP4(r *runner.Rand, sub int) *mp4Case {
 		spec.Config = []byte{}
 	}
 	spec.Samples = sc.make(r, codec, g)
-	mc := &mp4Case{spec: spec, cfgClass: cc.name, smpClass: sc.name, usedFrame: frame}
+	mc := &mp4Case{spec: spec, cfgClass: cc.name, smpClass: sc.name, tblClass: "none", usedFrame: frame}
+	if tc != nil {
+		spec.Samples = tblSamples(r, codec, g)
+		spec.Tbl, spec.TblVariant = tc, tv
+		mc.tblClass = tc.name
+	}
 	if _, ok := spec.build(); !ok {
-		// a test file of the repo is missing: same content in a built frame
-		spec.Frame = map[string]string{"real-prog": "prog-mdat-first", "real-init-frag": "frag"}[frame]
-		mc.usedFrame = spec.Frame + "(fallback)"
+		// a test file of the repo is missing (or has another shape than the table class needs): same content in a built frame
+		if fb, has := map[string]string{"real-prog": "prog-mdat-first", "real-init-frag": "frag"}[frame]; has {
+			spec.Frame = fb
+			mc.usedFrame = spec.Frame + "(fallback)"
+		}
 	}
 	mc.desc = fmt.Sprintf("mp4-tool: %s %s file, sample entry %s, %s record: %s, samples: %s (parameter sets and slices of %s)", codec, spec.Frame, spec.Entry, spec.cfgType(), cc.name, sc.name, g.name)
+	if tc != nil {
+		_, _ = spec.build()
+		mc.desc += fmt.Sprintf("; one table field hostile, the rest of the container consistent: %s = %s", tc.name, spec.tblWhat)
+	}
 	return mc
 }
